@@ -52,3 +52,104 @@ Proof.
   - left. split; [reflexivity|]. split; [intros a b _ _ E; unfold rP10 in E; lia | reflexivity].
   - vm_compute. discriminate.
 Qed.
+
+(* ------------------------------------------------------------------ symmetry under equal hydrogen-count SUMS *)
+(** total hydrogen count of a graph (absent = 0) *)
+Definition sum_hc (g : graph) : N := fold_right N.add 0%N (map (fun u => hc (nlabel g u)) (node_ids g)).
+
+Lemma sum_map_perm {X} (w : X -> N) l l' : Permutation.Permutation l l' ->
+  fold_right N.add 0%N (map w l) = fold_right N.add 0%N (map w l').
+Proof. induction 1; simpl; lia. Qed.
+
+Lemma sum_le_pointwise {X} (a b : X -> N) l : (forall x, In x l -> (a x <= b x)%N) ->
+  (fold_right N.add 0 (map a l) <= fold_right N.add 0 (map b l))%N.
+Proof.
+  induction l as [|x r IH]; simpl; intros H; [lia|].
+  pose proof (H x (or_introl eq_refl)). assert (forall y, In y r -> (a y <= b y)%N) by (intros y I; apply H; right; exact I).
+  specialize (IH H1). lia.
+Qed.
+
+Lemma sum_le_eq {X} (a b : X -> N) l : (forall x, In x l -> (a x <= b x)%N) ->
+  fold_right N.add 0%N (map a l) = fold_right N.add 0%N (map b l) -> forall x, In x l -> a x = b x.
+Proof.
+  induction l as [|y r IH]; simpl; intros H E x I; [destruct I|].
+  pose proof (H y (or_introl eq_refl)) as Hy.
+  assert (Hr : forall z, In z r -> (a z <= b z)%N) by (intros z Iz; apply H; right; exact Iz).
+  pose proof (sum_le_pointwise a b r Hr) as Hs.
+  destruct I as [<-|I]; [lia|]. apply IH; auto. lia.
+Qed.
+
+Section SymSum.
+Variable vf2b : bool -> (attrs -> attrs -> bool) -> (attrs -> attrs -> bool) -> graph -> graph -> bool.
+Hypothesis VB : vf2b_contract vf2b.
+
+Lemma iso_flip_sum e g1 g2 : gwf g1 -> gwf g2 -> sum_hc g1 = sum_hc g2 ->
+  (exists f, iso_map (nm_eng e) (em_eng e) g1 g2 f) -> exists f, iso_map (nm_eng e) (em_eng e) g2 g1 f.
+Proof.
+  intros W1 W2 Es (f & Hi).
+  pose proof (iso_sizes _ _ _ _ _ W1 W2 Hi) as En.
+  destruct Hi as (He & On). pose proof He as (E1 & E2 & E3).
+  (* the image of the nodes of g2 is a permutation of the nodes of g1 *)
+  assert (Hp : Permutation.Permutation (map f (node_ids g2)) (node_ids g1)).
+  { apply Permutation.NoDup_Permutation_bis.
+    - eapply emb_image_nodup; eauto. apply gwf_nodup; auto.
+    - rewrite map_length, <- !n_nodes_ids. lia.
+    - eapply emb_image_incl; eauto. }
+  (* pointwise hc g2 u <= hc g1 (f u), equal totals => equal everywhere *)
+  assert (Hle : forall u, In u (node_ids g2) -> (hc (nlabel g2 u) <= hc (nlabel g1 (f u)))%N).
+  { intros u Iu. destruct (E1 u Iu) as (_ & Hn). apply nm_eng_spec in Hn. tauto. }
+  assert (Heq : forall u, In u (node_ids g2) -> hc (nlabel g2 u) = hc (nlabel g1 (f u))).
+  { apply sum_le_eq; [exact Hle|]. fold (sum_hc g2). rewrite <- Es. unfold sum_hc.
+    rewrite <- (sum_map_perm (fun h => hc (nlabel g1 h)) _ _ Hp), map_map. reflexivity. }
+  destruct (iso_inverse _ _ _ _ _ (conj He On)) as ((He' & On') & Gl & Gr).
+  exists (finv f (node_ids g2)). split; [|exact On'].
+  pose proof (proj1 He') as Hdom. revert He'. apply emb_weaken.
+  - intros h Ih Hn. unfold flip2 in Hn. apply nm_eng_spec in Hn. apply nm_eng_spec. destruct Hn as (A & _).
+    destruct (Hdom h Ih) as (Ig & _). split; [intros k Ik; symmetry; auto|].
+    rewrite (Heq _ Ig), (Gr h Ih). lia.
+  - intros b b'. unfold flip2. rewrite !em_eng_spec. intros A k Ik. symmetry. auto.
+Qed.
+
+(** (2b, full strength) isomorphic is symmetric whenever the two graphs carry the same TOTAL hydrogen count (absent = 0) — in
+    particular for a graph and any relabelled copy, for isomers, and for graphs without hcount annotations: a label-preserving
+    bijection with hcount(pattern node) <= hcount(host node) everywhere and equal totals has equality everywhere, so its inverse is an
+    isomorphism the other way *)
+Theorem symmetric_sum gs e i j c c' : cache_inv gs c -> cache_inv gs c' -> gwf (gnth gs i) -> gwf (gnth gs j) ->
+  sum_hc (gnth gs i) = sum_hc (gnth gs j) ->
+  fst (isomorphic vf2b e i (gnth gs i) j (gnth gs j) c) = fst (isomorphic vf2b e j (gnth gs j) i (gnth gs i) c').
+Proof.
+  intros Hc Hc' Wi Wj Es. apply bool_iff.
+  rewrite (iso_verdict vf2b VB gs e i j c Hc Wi Wj), (iso_verdict vf2b VB gs e j i c' Hc' Wj Wi).
+  split; apply iso_flip_sum; auto.
+Qed.
+
+(** the round-2 statement (all hydrogen counts equal to one constant k, or absent) is the special case of equal orders; for
+    different orders both verdicts are False *)
+Lemma hc_all_sum k g : hc_all k g -> sum_hc g = (N.of_nat (n_nodes g) * k)%N.
+Proof.
+  unfold hc_all, sum_hc. rewrite n_nodes_ids. induction (node_ids g) as [|u r IH]; intros H; [simpl; lia|].
+  change (fold_right N.add 0%N (map (fun u0 => hc (nlabel g u0)) (u :: r))) with (hc (nlabel g u) + fold_right N.add 0%N (map (fun u0 => hc (nlabel g u0)) r))%N.
+  rewrite (H u (or_introl eq_refl)), IH by (intros v Iv; apply H; right; exact Iv). simpl length. lia.
+Qed.
+End SymSum.
+
+(** example: CH3-OH against a renumbered copy (hydrogen counts 3 and 1: not constant, equal totals) — symmetric; against CH2-O
+    (totals 4 and 2) the two directions differ: the hypothesis is needed *)
+Definition aCH3 : attrs := [(0, 3); (1, 1); (2, 3)]%N.
+Definition aOH : attrs := [(0, 1); (1, 2); (2, 3)]%N.
+Definition aCH2 : attrs := [(0, 2); (1, 1); (2, 3)]%N.
+Definition gMeOH : graph := LG [(1, aCH3); (2, aOH)]%N [(1, 2, b1)]%N.
+Definition gMeOH' : graph := LG [(8, aOH); (9, aCH3)]%N [(9, 8, b1)]%N.
+Definition gCH2O : graph := LG [(4, aCH2); (5, aO)]%N [(4, 5, b1)]%N.
+Definition gsH : list graph := [gMeOH; gMeOH'; gCH2O].
+Lemma wfH k : (k < 3)%nat -> gwf (gnth gsH k).
+Proof. intros Hk. destruct k as [|[|[|k]]]; [wf_small | wf_small | wf_small | lia]. Qed.
+Example ex_symmetric_sum :
+  fst (isomorphic has_mono eFull 0 (gnth gsH 0) 1 (gnth gsH 1) []) = fst (isomorphic has_mono eFull 1 (gnth gsH 1) 0 (gnth gsH 0) []) /\
+  sum_hc (gnth gsH 0) = 4%N /\ sum_hc (gnth gsH 2) = 2%N /\
+  fst (isomorphic has_mono eFull 0 (gnth gsH 0) 2 (gnth gsH 2) []) = true /\ fst (isomorphic has_mono eFull 2 (gnth gsH 2) 0 (gnth gsH 0) []) = false.
+Proof.
+  split; [|repeat split; vm_compute; reflexivity].
+  apply (symmetric_sum has_mono has_mono_contract gsH eFull 0 1 [] [] (cache_inv_nil gsH) (cache_inv_nil gsH) (wfH 0 ltac:(lia)) (wfH 1 ltac:(lia))).
+  vm_compute. reflexivity.
+Qed.
